@@ -78,6 +78,37 @@ def build_impl(spec, f=10.0):
     return Mininec(f, ws, media=[ideal_ground] if spec['ground'] else None)
 
 
+def pulse_geometry_bad(m):
+    """placement of the unknowns: each real half of a pulse is the segment of its object that ends at the
+    pulse point, its far end is the other end of that segment; the image half of a grounded pulse is the
+    mirror image (at z = 0) of its real half"""
+    import numpy as np
+    for p in m.pulses:
+        pt = np.array(p.point, dtype=float)
+        for h in (0, 1):
+            sg = p.segs[h]
+            # ends are joined within the matching tolerance (1e-3 of the shortest segment)
+            tol = 1e-6 * float(sg.seg_len) + 2.5e-3 * float(m.min_seglen)
+            fe = np.array(p.ends[h], dtype=float)
+            if p.ground[h]:
+                other = np.array(p.ends[1 - h], dtype=float)
+                if np.max(np.abs(fe - other * np.array([1, 1, -1]))) > tol:
+                    return ('pulse %d: the image half of the grounded pulse ends at %s, the mirror image of its real half ends at %s'
+                            % (p.idx + 1, [round(float(x), 6) for x in fe], [round(float(x), 6) for x in other * np.array([1, 1, -1])]))
+                continue
+            a, b = np.array(sg.p1, dtype=float), np.array(sg.p2, dtype=float)
+            ok = ((np.max(np.abs(a - pt)) <= tol and np.max(np.abs(b - fe)) <= tol) or
+                  (np.max(np.abs(b - pt)) <= tol and np.max(np.abs(a - fe)) <= tol))
+            if not ok:
+                return ('pulse %d at %s: half %d is given the segment %s - %s of object %d, which does not end at the pulse '
+                        '(far end recorded as %s)' % (p.idx + 1, [round(float(x), 6) for x in pt], h + 1,
+                                                      [round(float(x), 6) for x in a], [round(float(x), 6) for x in b], sg.geobj.n + 1,
+                                                      [round(float(x), 6) for x in fe]))
+            if sg.geobj is not p.geo[h] or not any(sg is x for x in p.geo[h].segments):
+                return 'pulse %d: half %d refers to a segment that is not a segment of its object' % (p.idx + 1, h + 1)
+    return None
+
+
 def observe_impl(m):
     """what the implementation built, in plain data"""
     objs = []
